@@ -55,8 +55,10 @@ def base_program(declared=False):
 def _base_program(lit):
     return {"pkg": "vpk", "modules": ["a"], "defs": [
         {"k": "var", "mod": "a", "name": "G0", "vtype": "list", "value": [1, 2]},
-        {"k": "fn", "mod": "a", "name": "f3", "memento": False, "version": None, "cluster": None, "pdef": 2, "kwdef": None,
-         "base": lit(0), "body": {"e": "add", "a": {"e": "glob", "n": "G0"}, "b": {"e": "pk"}}},
+        # (G1 is also the default value of a parameter of the plain helper f3; it is only ever updated in place)
+        {"k": "var", "mod": "a", "name": "G1", "vtype": "list", "value": [4]},
+        {"k": "fn", "mod": "a", "name": "f3", "memento": False, "version": None, "cluster": None, "pdef": 2, "kwdef": None, "gdef": "G1",
+         "base": lit(0), "body": {"e": "add", "a": {"e": "add", "a": {"e": "glob", "n": "G0"}, "b": {"e": "pk"}}, "b": {"e": "pg"}}},
         {"k": "fn", "mod": "a", "name": "f1", "memento": True, "version": None, "cluster": None, "pdef": None, "kwdef": None,
          "base": lit(1), "body": {"e": "add", "a": {"e": "call", "f": "f1"}, "b": {"e": "call", "f": "f2"}}},
         {"k": "fn", "mod": "a", "name": "f0", "memento": True, "version": None, "cluster": "c", "pdef": None, "kwdef": 3,
@@ -79,6 +81,7 @@ SMALL_EVENTS = [
     {"ev": "recluster", "name": "f1"},
     {"ev": "unwrap", "name": "f1"},
     {"ev": "unwrap", "name": "f4"},
+    {"ev": "edit", "edit": {"kind": "varmut", "site": 1, "delta": 1}},
 ]
 
 
